@@ -1165,6 +1165,9 @@ class PlainQuantity(Generic[MagnitudeT], PrettyIPython, SharedRegistryObject):
         except TypeError:
             return NotImplemented
         else:
+            # quantities of two registries never combine (raises ValueError)
+            self._check(other)
+
             if not self._ok_for_muldiv:
                 raise OffsetUnitCalculusError(self._units)
 
@@ -1226,6 +1229,9 @@ class PlainQuantity(Generic[MagnitudeT], PrettyIPython, SharedRegistryObject):
         except TypeError:
             return NotImplemented
         else:
+            # quantities of two registries never combine (raises ValueError)
+            self._check(other)
+
             if not self._ok_for_muldiv:
                 raise OffsetUnitCalculusError(self._units)
 
